@@ -1,6 +1,6 @@
 """
-`jira.render` / `xwiki.render` correspondence units: the real `JiraRenderer().render(Document(text))` and
-`XWiki20Renderer().render(Document(text))` (inside `with R() as r:`; process-global parser state reset after every
+`jira.render` / `xwiki.render` / `latex.text` correspondence units: the real `JiraRenderer().render(Document(text))`,
+`XWiki20Renderer().render(Document(text))` and `LaTeXRenderer().render(Document(text))` (inside `with R() as r:`; process-global parser state reset after every
 case) against the Lean models `Document.parse` + `Jira.render` / `XWiki.render` (lean/Mistletoe/Model/Jira.lean,
 XWiki.lean; driver ops "jira.render", "xwiki.render"), byte for byte, on two paths: from the text (parser model +
 renderer model) and from the exported real token tree (renderer model alone, so trees with tokens the parser model
@@ -12,7 +12,7 @@ import export
 import impl
 from common import driver_batch
 
-RENDERERS = [('JiraRenderer', 'jira.render'), ('XWiki20Renderer', 'xwiki.render')]
+RENDERERS = [('JiraRenderer', 'jira.render'), ('XWiki20Renderer', 'xwiki.render'), ('LaTeXRenderer', 'latex.text')]
 # the parser model does not run the `find` of the two XWiki macro tokens: texts in which one of the patterns could match
 # are compared on the tree path only
 MACRO = re.compile(r'\{\{')
@@ -46,7 +46,7 @@ def real(rname, text):
 def run(ctx, texts, unit_prefix=''):
     reqs, exp, meta = [], [], []
     for i, t in enumerate(texts):
-        rname, op = RENDERERS[i % 2]
+        rname, op = RENDERERS[i % len(RENDERERS)]
         res, btypes, stypes, tree = real(rname, t)
         if not (rname == 'XWiki20Renderer' and MACRO.search(t)):
             reqs.append({'op': op, 'text': t, 'types': btypes, 'span': stypes, 'fuel': 1000000})
